@@ -451,6 +451,32 @@ def unmarshalFloatValue (pf : Bytes → Fl) (stringify : Bool) (k : VKind) (val 
   | .num => if stringify then .err .mismatch else parse
   | .other => .err .mismatch
 
+/-- The v1 legacy arm of the quoted form (`StringifyWithLegacySemantics`: v1 `,string` fields and v1 map keys):
+```
+n, err := strconv.ParseFloat(string(val), bits)       // Go syntax, at the width of the DESTINATION
+if err != nil { if string(val) == "null" { SetFloat(0); return nil }; return errors.Unwrap(err) }
+va.SetFloat(n)
+```
+`pfGo` is `strconv.ParseFloat(·, bits)` on the Go float syntax: a syntax error, a range error (±Inf), or a value
+(which may be ±Inf for the literals `inf`/`infinity`). -/
+def unmarshalFloatLegacy (pfGo : Bytes → Except NumErr Fl) (val : Bytes) : Stored Fl :=
+  match pfGo val with
+  | .ok f => .set f
+  | .error e =>
+    if val == [110, 117, 108, 108] then .null
+    else match e with
+      | .range => .err .range
+      | _ => .err .syntax
+
+/-- `strconv.ParseFloat(·, bits)` restricted to the JSON number grammar (on which the Go and JSON syntaxes agree):
+the correctly rounded value, ErrRange on overflow; anything else is reported as a syntax error here (the oracle is
+only asked about JSON numbers, `null`, and contents both grammars reject). -/
+def pfGoOnJson (isNum : Bytes → Bool) (ff : FloatFmt) (b : Bytes) : Except NumErr Fl :=
+  if isNum b then
+    let f := parseFloatExact ff b
+    if f.inf then .error .range else .ok f
+  else .error .syntax
+
 /-! ## (e) jsonwire.ReformatNumber (after ConsumeNumber succeeded on `src[:n]`) -/
 
 def maxExactIntegerDigits : Nat := JsonV.Gen.jsonwire.c_ReformatNumber_maxExactIntegerDigits
